@@ -116,6 +116,13 @@ def check_constructors(ctx):
         if not cons:
             ctx.ob('R3', fi, name, None, 'constructor call not found')
             continue
+        for r_ in ast.walk(fi.node):
+            if isinstance(r_, ast.Return) and r_.value is not None:
+                v_ = it.value_of(r_.value)
+                fresh_obj = v_ is not None and v_.ty == 'obj' and v_.alloc == fi.qualname and not v_.symbolic
+                if not fresh_obj:
+                    ctx.ob('R3', fi, r_, False, f'`{norm_text(r_)}` returns an existing trajectory object instead of a new one: the derived '
+                                                f'trajectory aliases its source, so extending / converting one changes the other')
         e = cons[-1]
         kw = e['kwargs']
         c = kw.get('coords')
